@@ -169,6 +169,27 @@ func runA(t *vlib.T) {
 	for _, a := range all {
 		emit([]atom{a})
 	}
+	// the same one-condition chains with the context values supplied as engine globals (AddGlobal)
+	// and an empty render context: where the value is looked up must not change the branch
+	for _, a := range all {
+		a := a
+		for _, hasElse := range []bool{false, true} {
+			hasElse := hasElse
+			key := "A/glob/" + a.id
+			if hasElse {
+				key += "/else"
+			}
+			t.Case(key, func() *vlib.Outcome {
+				src, globals := chainSrc([]atom{a}, hasElse, -1)
+				if len(globals) == 0 { // a literal: nothing to move
+					return &vlib.Outcome{Class: "A:glob:literal"}
+				}
+				got := hRender(globals, map[string]interface{}{}, nil, src)
+				want, cls := chainWant([]atom{a}, hasElse, -1)
+				return hVerdict("A", src, nil, globals, map[string]interface{}{}, got, want, hasElse, "A:glob:"+cls)
+			})
+		}
+	}
 	for _, a := range all {
 		for _, b := range all {
 			emit([]atom{a, b})
